@@ -58,6 +58,15 @@ Theorem C03_shift_equivariant : forall (T : fld -> fld) (Ph : fld),
   (forall u, F (T u) = fmul Ph (F u)) -> (forall U, Finv (fmul Ph U) = T (Finv U)) ->
   forall u K A, cust (T u) K A = T (cust u K A).
 Proof. intros T Ph H1 H2. eapply custom_shift; eassumption. Qed.
+Theorem C03_shift_equivariant_numpy_fresnel : forall (T : fld -> fld) (Ph : fld),
+  (forall u, F (T u) = fmul Ph (F u)) -> (forall U, Finv (fmul Ph U) = T (Finv U)) ->
+  (forall u, S (T u) = T (S u)) -> (forall u, Sinv (T u) = T (Sinv u)) ->
+  forall u K h, cent (T u) K = T (cent u K) /\ conv_centered F Finv S Sinv (T u) h = T (conv_centered F Finv S Sinv u h).
+Proof.
+  intros T Ph H1 H2 H3 H4 u K h. split.
+  - eapply centered_shift; eassumption.
+  - eapply conv_centered_shift; eassumption.
+Qed.
 End Contracts.
 
 (* scale > 1 (impulse-response methods): zero insertion on the finer grid is linear, so the whole path
